@@ -26,11 +26,17 @@ def correspondence(ctx):
         for p in B.all_patterns(n):
             cons = B.sorted_cons(p)
             jobs.append(cons)
-            if n >= 1 and rng0.random() < 0.15:
+            if n >= 1 and (rng0.random() < 0.25 or set(p) == {"ne"}):
+                # an exact duplicate, next to the original or further on
                 d = list(cons)
                 i = rng0.randrange(n)
-                d.insert(i, d[i])
+                d.insert(rng0.choice([i, rng0.randrange(n + 1)]), d[i])
                 jobs.append(d)
+            if n >= 1 and set(p) <= {"ne", "eq"} and len(set(p)) <= 2:
+                for i in range(n):
+                    d = list(cons)
+                    d.append(d[i])
+                    jobs.append(d)
     lines = ["simplify %s id" % B.cons_line(c) for c in jobs]
     lines_rev = ["simplify %s rev" % B.cons_line(c) for c in jobs]
     answers = common.run_model(lines)
